@@ -503,7 +503,8 @@ Outcome run_c07(const Case &c, bool thorough) {
       if (handles[key].live) continue;
       string name = fullname(nidx);
       bool exists = name_gen.count(name) != 0;
-      if (!exists) ro = 0;
+      if (!exists && s.args.size() > 3 && s.args[3] % 8 != 0) ro = 0;   // most creators are read-write; one in eight creates the segment through a READONLY handle (it is the owner all the same)
+      if (!exists && ro) co.classes.insert("created_through_readonly_handle");
       std::ostringstream cmd; cmd << "shm_new " << key.second << ' ' << name << ' ' << size << ' ' << ro;
       int kill = s.kill;
       if (kill && !exists && (kill == 2 || kill == 3) && vl::excluded("crash-recovery-unsized-segment")) { kill += 2; vl::stats().count("excluded_kill_before_ftruncate_remapped"); }
